@@ -18,10 +18,12 @@ import itertools
 PID = 'C13'
 GEN = None
 DEPS = ()
+STATEMENT_FILES = ('Properties.v', 'PropertiesDft.v')
 RTOL = 2e-5
 ASSUMPTIONS = [
-    'scipy.fft.rfftn is abstract (a function of the mesh values obeying the shift theorem with a unimodular phase): sampled '
-    'numerically, not proved',
+    'scipy.fft.rfftn computes the discrete Fourier transform up to rounding: the shift theorem is PROVED for the exact DFT on every '
+    'n1 x n2 x n3 mesh (PropertiesDft.v, over any commutative ring with roots of unity and over mathcomp algC); that the library '
+    'routine is that DFT is sampled numerically, not proved',
     'floating-point rounding, fastmath and the order of reductions are not modelled: float columns are compared within '
     f'{RTOL} of the largest magnitude of the column (measured deviations are ~1e-7), N_mode and the k/mu columns exactly',
     'thread-count invariance is sampled (1..16 threads), not proved here (integer counts: C08 thread_independent; painting: C07)',
@@ -29,8 +31,9 @@ ASSUMPTIONS = [
     'painting, translation by whole cells and normalisation are exact in float32',
 ]
 MANIFEST = {
-    'technique': 'Coq proof over an abstract commutative *-ring with the FFT as a section hypothesis (linearity is not needed; '
-                 'shift theorem, extensionality); metamorphic differential runs of the real calc_power',
+    'technique': 'Coq proof over an abstract commutative *-ring pipeline (Model/Spec/Properties) whose hypotheses on the transform are '
+                 'discharged for the exact n1 x n2 x n3 DFT (mathcomp, over any ring with roots of unity and over algC; PropertiesDft.v); '
+                 'metamorphic differential runs of the real calc_power',
     'text': 'PARTIAL.  Proved in Coq for the abstract pipeline paint -> normalise -> F -> interlace -> compensate -> conj(f) f2 -> '
             'bin (coq/theories/C13/Model.v), for every instance of the abstract pieces satisfying PipeOk (commutative ring with a '
             'multiplicative involutive conjugation, F a function of the mesh values with the shift theorem F(g o roll_a) = phi_a F(g), '
@@ -38,7 +41,11 @@ MANIFEST = {
             'unchanged by permuting the particles of either field (power_perm_invariant), by translating all particles by whole '
             'cells with wrap, interlaced or not, compensated or not, auto or cross (power_cellshift_invariant), and by passing the '
             'same particles as second field (cross_equals_auto); N_mode and the number of rows do not depend on the particles or '
-            'options (nmode_shape_independent_of_particles).  The FFT is abstract; floating-point rounding and reduction order, '
+            'options (nmode_shape_independent_of_particles).  PropertiesDft.v discharges the hypotheses on F: for the exact n1 x n2 x n3 '
+            'discrete Fourier transform over any commutative ring with roots of unity and a conjugation the shift theorem is proved '
+            '(dft_shift_theorem, dft_pipe_ok), the roots exist in the algebraic complex numbers for every mesh size (algC_roots), and '
+            'complex_dft_symmetries states the three symmetries for the complex-DFT pipeline with any translation-invariant deposit '
+            'kernel (what C06.cell_shift_rolls proves of TSC/CIC) and any binning.  Floating-point rounding and reduction order, '
             'hence the thread-count clause, are NOT modelled.  The tie to the code is a correspondence run only: the hypotheses are '
             'sampled on tsc_parallel / cic_serial / scipy.fft.rfftn and the real calc_power is run on metamorphic pairs '
             '(permutation, whole-cell translations, pos2=pos, 1..16 threads, other particle sets) with N_mode exact and floats '
